@@ -381,6 +381,8 @@ def k_equal(base, chk):
 
 def run(chk):
     prog, base = setup(chk)
+    from .common import state_shape
+    state_shape(chk, prog)
     from .common import api_surface, SCALAR_API
     api_surface(chk, prog, 'Scalar', SCALAR_API, 'C07 (arithmetic) or C08 (encodings)')
     chk.bounds = ["all operands in [0,l) (unique saturated Montgomery representation, the fiat-crypto precondition)", "Invert: the real pow2k loops (253 squarings + table)"]
